@@ -278,6 +278,8 @@ def fix_ptm(molecule):
 
     # Keep track of all nodes that get removed due to unknown PTMs
     removed = set()
+    # (modification, atoms of the touched residues) pairs to label at the end
+    to_label = []
 
     known_ptms = molecule.force_field.modifications
 
@@ -359,14 +361,22 @@ def fix_ptm(molecule):
                                          val, format_atom_string(mol_node),
                                          type='change-atom')
                             mol_node[attr_name] = val
-            for n_idx in n_idxs:
-                node = molecule.nodes[n_idx]
-                if not ('modification' in node and ptm in node.get('modifications', [])):
-                    # These nodes already had the modification annotated.
-                    # Also note that 'modification' != 'modifications'. Yes,
-                    # this is an issue. No, I'm not fixing that.
-                    node['modifications'] = node.get('modifications', [])
-                    node['modifications'].append(ptm)
+            to_label.append((ptm, n_idxs))
+
+    # The residues are labelled only once every group of PTM atoms has been
+    # dealt with: a 'modifications' attribute on a PTM atom that still awaits
+    # identification would be mistaken for a modification requested for it.
+    for ptm, n_idxs in to_label:
+        for n_idx in n_idxs:
+            if n_idx not in molecule:
+                continue
+            node = molecule.nodes[n_idx]
+            if not ('modification' in node and ptm in node.get('modifications', [])):
+                # These nodes already had the modification annotated.
+                # Also note that 'modification' != 'modifications'. Yes,
+                # this is an issue. No, I'm not fixing that.
+                node['modifications'] = node.get('modifications', [])
+                node['modifications'].append(ptm)
 
 
 class CanonicalizeModifications(Processor):
